@@ -148,8 +148,32 @@ class Module:
                 withs.append(n)
             stack.extend(reversed(list(ast.iter_child_nodes(n))))
         withs.sort(key=lambda n: (n.lineno, n.col_offset))
+        par = {}
+        for n in ast.walk(fi.node):
+            for ch in ast.iter_child_nodes(n):
+                par[ch] = n
         for w_ in withs:
             k += 1
+            # `<qualname>#before_with<k>`: the statements that precede the k-th with in its own block, followed by
+            # `return <context expression>`: the (await-free, if the contract's structural check says so) code that
+            # computes what the with statement is entered on.  Dropped: the enclosing conditions of that block.
+            blk = None
+            p_ = par.get(w_)
+            for fld in ("body", "orelse", "finalbody"):
+                if p_ is not None and w_ in getattr(p_, fld, []):
+                    blk = getattr(p_, fld)
+            if blk is not None and len(w_.items) == 1:
+                pre = blk[: blk.index(w_)]
+                ret = ast.Return(value=w_.items[0].context_expr, lineno=w_.lineno, col_offset=w_.col_offset,
+                                 end_lineno=w_.lineno, end_col_offset=w_.col_offset)
+                segb = ast.FunctionDef(name=f"{fi.node.name}#before_with{k}", args=fi.node.args,
+                                       body=list(pre) + [ret], decorator_list=[], returns=None, type_comment=None,
+                                       type_params=[], lineno=(pre[0].lineno if pre else w_.lineno),
+                                       col_offset=w_.col_offset, end_lineno=w_.lineno, end_col_offset=w_.col_offset)
+                qnb = f"{fi.qualname}#before_with{k}"
+                self.functions[qnb] = FunctionInfo(
+                    module=self.name, qualname=qnb, node=segb, source=fi.source, sha256=fi.sha256,
+                    lineno=segb.lineno, cls=fi.cls, decorators=[])
             seg = ast.FunctionDef(name=f"{fi.node.name}#with{k}", args=fi.node.args, body=list(w_.body),
                                   decorator_list=[], returns=None, type_comment=None, type_params=[],
                                   lineno=w_.lineno, col_offset=w_.col_offset,
